@@ -254,6 +254,8 @@ pub enum EnvEv {
     /// unsolicited bank transfer (minted by a faucet)
     Donate { to: String, denom: String, amount: Uint128 },
     BlockRedelegation { validator: String, on: bool },
+    /// the validator leaves (on) / rejoins (off) the bonded set; delegations are untouched
+    Jail { validator: String, on: bool },
     NewChainValidator { name: String },
     SwapMode(SwapMode),
     OracleMode(OracleMode),
@@ -268,6 +270,7 @@ impl EnvEv {
             EnvEv::Slash { unbonding: true, .. } => "slash_unbonding",
             EnvEv::Donate { .. } => "donation",
             EnvEv::BlockRedelegation { .. } => "redelegation_blocked",
+            EnvEv::Jail { .. } => "validator_jailed",
             EnvEv::NewChainValidator { .. } => "validator_churn",
             EnvEv::SwapMode(_) => "swap_fault",
             EnvEv::OracleMode(_) => "oracle_fault",
